@@ -11,6 +11,10 @@ Sub-checks
   deep     generated: the same fault planted at a random depth (<= 4) of nested dict / list / tuple /
            Pipe / Spec / Call / Invoke / non-catching Coalesce specs, same keyword matrix sampled
   reentrant  the fault raised inside a nested glom() call made from a callable (key functions, Spec.glom)
+  extension  generated: the fault raised in a sub-spec that an extension spec (glomit), or a callable handed the scope
+           through S, evaluates in the scope of the running evaluation - via scope[glom], Spec(sub).glom(t, scope=scope)
+           (the flattened copy), Spec(sub, scope=own).glom(..), Spec(sub).glomit - alone, as the first step, as a later
+           step of a tuple / Pipe or anywhere below one, one or two such holders deep; same oracle and keyword matrix
   mutsite  ENUMERATED: the fault raised by the user's container inside Assign / Delete with a T-style last step;
            for Delete x ignore_missing x whether the addressed element is present (readable)
 """
@@ -22,7 +26,7 @@ from hypothesis import strategies as st
 import glom
 from glom import (T, Spec, Coalesce, Call, Invoke, Pipe, GlomError, PathAccessError, CoalesceError, MatchError,
                   TypeMatchError, CheckError, FoldError, BadSpec, UnregisteredTarget, PathAssignError,
-                  PathDeleteError, Match, Check, Sum, Assign, Delete, Iter, Path)
+                  PathDeleteError, Match, Check, Sum, Assign, Delete, Iter, Path, S)
 from glom.grouping import Group
 
 from ..runner import Sub, Mismatch
@@ -34,12 +38,17 @@ ADDR = re.compile(r' at 0x[0-9a-f]+')
 PROPERTY = 'C04'
 RULE = ('one fault site per case: a probe raising an instance from a 51-class catalogue, or a spec that makes glom itself fail '
         'with each documented error; nested at depth 0-4 in dict/list/tuple/Pipe/Spec/Call/Invoke/Coalesce(non-catching); '
+        'or inside a sub-spec that an extension spec / a callable given S evaluates in the live scope at any chain step; '
         'x default x skip_exc x glom_debug. Depth <= 1 is enumerated completely. '
         'Non-trivial = fault depth >= 2, or a non-builtin class, or a non-empty keyword set.')
 ASSUMPTIONS = [
     '"can be rebuilt from its args": type(e)(*e.args) succeeds and has the same args',
     'exceptions raised by registered accessors inside a path step are PathAccessErrors by C01 and are not fault sites here',
     'BaseException subclasses that are not Exceptions propagate as the same object unless skip_exc names them',
+    'extension: with the generated vias only the outermost glom() call is judged: Spec(sub).glom(t, scope=<live scope>) and scope[glom] hand the '
+    'error on unchanged (no exit of a public glom() call lies in between), so the error that reaches the outer exit is the '
+    'one raised at the fault site.  A nested public glom(t, sub, scope=<live scope>) is understood by the builder but not '
+    'generated: the scope= keyword is documented for additional data only',
     'mutsite: IndexError / KeyError out of the container\'s __delitem__ and AttributeError out of its __delattr__ are the '
     'documented "could not delete" failures: detected by glom, PathDeleteError carrying the container\'s exception, and '
     'default / skip_exc are decided on the PathDeleteError; ignore_missing=True forgives them only for an element that is '
@@ -471,8 +480,11 @@ def judge(where, kw, orig, outcome, marker, detected_cls=None):
     return 'raised'
 
 
-def run_case(name, wrappers, default, skip, debug):
+def run_case(name, wrappers, default, skip, debug, build=None):
+    """`build(spec, leaving)`, when given, puts the fault spec into its surroundings instead of the plain wrappers; it
+    appends to `leaving` the exception objects that leave nested PUBLIC glom() calls made on the way, innermost first"""
     marker = ['default-marker']
+    leaving = []
     if name in CATALOGUE:
         site = Site(name)
         spec = site
@@ -485,7 +497,7 @@ def run_case(name, wrappers, default, skip, debug):
         target = tfac()
         site = None
         exc_type = detected_cls
-    spec = _rewrap(spec, wrappers, name)
+    spec = build(spec, leaving) if build is not None else _rewrap(spec, wrappers, name)
     kw = make_kwargs(exc_type, default, skip, debug, marker)
     where = 'glom(%r, %r, %s)' % (target, spec, ', '.join('%s=%r' % kv for kv in sorted(kw.items())))
     try:
@@ -498,10 +510,15 @@ def run_case(name, wrappers, default, skip, debug):
         if len(site.raised) != 1:
             raise Mismatch('site-calls', '%s: the fault site ran %d times' % (where, len(site.raised)))
         orig = site.raised[0]
+        # a nested public glom() call (no keywords) is judged against the error that reached it, and the outer call
+        # against the error leaving the outermost nested call
+        for lv in leaving:
+            judge(where + ' [nested call]', {}, orig, ('err', lv), marker)
+            orig = lv
     else:
         # glom-detected: the original is what propagates under glom_debug; obtain it with a second run
         try:
-            glom.glom(tfac(), _rewrap(sfac(), wrappers, name), glom_debug=True)
+            glom.glom(tfac(), build(sfac(), []) if build is not None else _rewrap(sfac(), wrappers, name), glom_debug=True)
             raise Mismatch('detected-no-error', '%s: expected %s' % (where, detected_cls.__name__))
         except Mismatch:
             raise
@@ -652,6 +669,143 @@ def check_reentrant(recipe, ctx):
     ctx.label(*class_labels(name))
     ctx.nontrivial(True)
     ctx.outcome([name, how, res])
+
+
+# ---------------------------------------------------------------------------
+# extension specs: the fault is raised in a sub-spec that an extension (glomit protocol), or a callable that was handed
+# the scope (S), evaluates in the scope of the running evaluation - at any step of a chain, at any depth
+
+EXT_VIAS = {
+    # the documented way for an extension to evaluate a sub-spec
+    'scope-glom': lambda sub, t, scope: scope[glom.glom](t, sub, scope),
+    # the public "compiled glom call", told to run in the scope at hand (it copies the scope into one flat mapping)
+    'spec-glom-scope': lambda sub, t, scope: Spec(sub).glom(t, scope=scope),
+    'spec-glom-scope-own': lambda sub, t, scope: Spec(sub, scope={'own': 1}).glom(t, scope=scope),
+    # delegation to another extension spec's glomit
+    'spec-glomit': lambda sub, t, scope: Spec(sub).glomit(t, scope),
+    # a nested top-level call that is given the live scope as its scope= keyword.  Understood by the builder (replays),
+    # NOT drawn by the generator: see EXT_VIAS_DRAWN
+    'glom-scope': lambda sub, t, scope: glom.glom(t, sub, scope=scope),
+    'glommer-scope': lambda sub, t, scope: glom.Glommer().glom(t, sub, scope=scope),
+}
+EXT_VIAS_FLAT = ('spec-glom-scope', 'spec-glom-scope-own')
+EXT_VIAS_PUBLIC = ('glom-scope', 'glommer-scope')          # these pass the exit of a public glom() call of their own
+# glom()'s scope= keyword is documented as "additional data that can be accessed via S"; whether a live scope (with the
+# bookkeeping entries of the running evaluation in it) is a legitimate value for it is not said anywhere, so the nested
+# public call is not generated (reported as a candidate; on the unchanged tree the error of a later chain step comes out
+# of it as KeyError(CHILD_ERRORS))
+EXT_VIAS_DRAWN = ['scope-glom', 'spec-glom-scope', 'spec-glom-scope', 'spec-glom-scope-own', 'spec-glomit']
+EXT_HOLDERS = ['glomit', 'invoke-S', 'call-S']
+EXT_LEADS = ['T', 'spec-T', 'ident', 'pipe-T']
+CHAINING = ('tuple', 'tuple2', 'pipe', 'list', 'iter')     # the wrappers that put their spec behind an earlier chain step
+
+
+def same(t):
+    return t
+
+
+class Reenter(object):
+    """evaluates `sub` on the target in the scope it is given, through EXT_VIAS[via].  As an extension spec (glomit) and
+    as a plain callable f(scope, target) for Invoke / Call with S among the arguments"""
+    def __init__(self, sub, via, leaving):
+        self.sub, self.via, self.leaving = sub, via, leaving
+        self.__name__ = 'reenter'
+
+    def _run(self, target, scope):
+        if self.via not in EXT_VIAS_PUBLIC:
+            return EXT_VIAS[self.via](self.sub, target, scope)
+        try:
+            return EXT_VIAS[self.via](self.sub, target, scope)
+        except BaseException as e:
+            self.leaving.append(e)
+            raise
+
+    def __repr__(self):
+        return '<%s %s: %r>' % (type(self).__name__, self.via, self.sub)
+
+
+class SubEval(Reenter):
+    def glomit(self, target, scope):
+        return self._run(target, scope)
+
+
+class ScopeTaker(Reenter):
+    def __call__(self, scope, target):
+        return self._run(target, scope)
+
+
+def build_extension(recipe, spec, leaving):
+    name = recipe['name']
+    spec = _rewrap(spec, recipe['inner'], name)
+    for layer in recipe['layers']:
+        if layer['holder'] == 'glomit':
+            spec = SubEval(spec, layer['via'], leaving)
+        elif layer['holder'] == 'invoke-S':
+            spec = Invoke(ScopeTaker(spec, layer['via'], leaving)).specs(S, T)
+        else:
+            spec = Call(ScopeTaker(spec, layer['via'], leaving), args=(S, T))
+        spec = _rewrap(spec, layer['between'], name)
+        if layer['chain'] != 'none':
+            lead = [{'T': T, 'spec-T': Spec(T), 'ident': same, 'pipe-T': Pipe(T, T)}[k] for k in layer['lead']]
+            steps = lead + [spec] + [T] * layer['trail']
+            spec = tuple(steps) if layer['chain'] == 'tuple' else Pipe(*steps)
+    return _rewrap(spec, recipe['outer'], name)
+
+
+def ext_later(recipe):
+    """per layer (innermost first): does the holder sit at, or anywhere below, a chain step that is not the first one?"""
+    res = []
+    above = bool(set(recipe['outer']) & set(CHAINING))
+    for layer in reversed(recipe['layers']):
+        here = above or (layer['chain'] != 'none' and len(layer['lead']) > 0) or bool(set(layer['between']) & set(CHAINING))
+        res.append(here)
+        above = here
+    return res[::-1]
+
+
+# (few draws per recipe: the choices that go together are drawn as one element of a small enumerated table)
+EXT_LEADLISTS = [[]] * 5 + [[a] for a in EXT_LEADS] * 3 + [[a, b] for a in EXT_LEADS for b in EXT_LEADS]
+EXT_SHAPES = [('none', [], 0)] * 16 + [(c, lead, trail) for c in ('tuple', 'tuple', 'pipe') for lead in EXT_LEADLISTS
+                                       for trail in (0, 0, 1)]
+EXT_HOW = [(via, holder) for via in EXT_VIAS_DRAWN for holder in ('glomit', 'glomit', 'invoke-S', 'call-S')]
+EXT_KW = list(itertools.product(DEFAULTS, SKIPS, [False, False, True]))
+
+
+def gen_extension(draw):
+    names = sorted(CATALOGUE) + sorted(DETECTED)
+    name = draw(st.sampled_from(names))
+    wr = [[w] for w in WRAPPERS[1:] if not pep479(name, [w])]
+    some = [[]] * (2 * len(wr)) + wr            # no wrapper in two of three draws
+    layers = []
+    for _ in range(draw(st.sampled_from([1, 1, 2]))):
+        via, holder = draw(st.sampled_from(EXT_HOW))
+        chain, lead, trail = draw(st.sampled_from(EXT_SHAPES))
+        layers.append({'via': via, 'holder': holder, 'chain': chain, 'lead': list(lead), 'trail': trail,
+                       'between': list(draw(st.sampled_from(some)))})
+    default, skip, debug = draw(st.sampled_from(EXT_KW))
+    return {'name': name, 'inner': list(draw(st.sampled_from(some))), 'layers': layers,
+            'outer': list(draw(st.sampled_from(some))), 'default': default, 'skip': skip, 'debug': debug}
+
+
+def check_extension(recipe, ctx):
+    name = recipe['name']
+    res = run_case(name, None, recipe['default'], recipe['skip'], recipe['debug'],
+                   build=lambda spec, leaving: build_extension(recipe, spec, leaving))
+    later = ext_later(recipe)
+    ctx.label('outcome-' + res, 'detected' if name in DETECTED else 'injected', 'layers-%d' % len(recipe['layers']))
+    ctx.label('ext-later' if any(later) else 'ext-first-or-alone')
+    for layer, lat in zip(recipe['layers'], later):
+        ctx.label('via-' + layer['via'], 'holder-' + layer['holder'])
+    if any(lat and layer['via'] in EXT_VIAS_FLAT for layer, lat in zip(recipe['layers'], later)):
+        ctx.label('flat-later')
+    if any(lat and layer['via'] not in EXT_VIAS_FLAT for layer, lat in zip(recipe['layers'], later)):
+        ctx.label('chained-later')
+    ctx.label(*class_labels(name))
+    depth = len(recipe['inner']) + len(recipe['outer']) + sum(1 + (l['chain'] != 'none') + len(l['between'])
+                                                              for l in recipe['layers'])
+    builtin = name in CATALOGUE and type(CATALOGUE[name]()).__module__ == 'builtins'
+    ctx.nontrivial(depth >= 2 or not builtin or recipe['default'] != 'absent' or recipe['skip'] != 'absent')
+    ctx.outcome([name, [(l['holder'], l['via']) for l in recipe['layers']], res])
 
 
 # ---------------------------------------------------------------------------
@@ -908,6 +1062,11 @@ SUBS = [
     Sub('deep', check_case, gen=gen_deep, quick=3000, thorough=15000,
         floors=dict(CLS_FLOORS, **{'outcome-swallowed': 0.1, 'outcome-raised': 0.1, 'detected': 0.09})),
     Sub('reentrant', check_reentrant, gen=gen_reentrant, quick=1500, thorough=6000, floors=dict(CLS_FLOORS)),
+    Sub('extension', check_extension, gen=gen_extension, quick=1600, thorough=6000,
+        floors={'flat-later': 0.2, 'chained-later': 0.12, 'ext-first-or-alone': 0.17, 'detected': 0.08, 'layers-2': 0.15,
+                'outcome-raised': 0.12, 'outcome-swallowed': 0.25, 'via-scope-glom': 0.1, 'via-spec-glom-scope': 0.25,
+                'via-spec-glom-scope-own': 0.12, 'via-spec-glomit': 0.12, 'holder-glomit': 0.3, 'holder-invoke-S': 0.14,
+                'holder-call-S': 0.14, 'cls-glom-subclass': 0.09, 'cls-setattr-refusing': 0.035}),
     Sub('samename', check_samename, gen=gen_samename, quick=400, thorough=2000),
     Sub('rebuild', check_rebuild, gen=gen_rebuild, quick=600, thorough=3000, floors={'rebuildable-after-unrebuildable': 0.1}),
     Sub('mutsite', check_mutsite, enum=enum_mutsite,
